@@ -196,6 +196,21 @@ CHECKS = {
                   'attribute carries which schema field) are trusted; leaf cells have concrete depth 0',
              technique='contracts (field-by-field postconditions generated from block.tlb) on the real deserialize functions, symbolic execution over all paths per shape, z3 (LIA); finite shape split partly sampled, hence level other',
              design_ref='DESIGN.md §5 C16'),
+ 'C19': dict(category='other',
+             text='Ghost counters (in-memory loader rewrite R3: a tick at every loop head of the listed functions, applied to the source '
+                  'read from /repo on each run) with postconditions bounding them.  Deductive: TlSchemas.deserialize on a (vector T) field '
+                  'whose 32-bit length field is SYMBOLIC over its whole range (T in int, long, int256, two bare composites; tails of 0/3/8 '
+                  'symbolic bytes) raises or iterates at most once per remaining input byte; Cell.__init__ over ABSTRACT children performs '
+                  'at most 4 + 4(1+2r) loop iterations on every path (never walks below its direct children: bottom-up hashing is O(n+e)); '
+                  'deserialize_hml on symbolic bits iterates at most bits+1 times.  BOUNDED (exact counts): Cell.order / to_boc / BoC parse '
+                  'loop iterations == (n+e)+n resp. <= 4n+2e(+16) on maximal-sharing ladders to depth 400, chains of depth 1000, diamonds, '
+                  'random DAGs of up to 300 cells and on re-serialising parsed ladders; adversarial byte strings (huge count / length '
+                  'fields, truncations, legacy magics) for the BoC and TL parsers under a tick cap of 8*len+64.  The induction "order '
+                  'is linear for every DAG" is not within SMT reach and stays bounded; parsing a dictionary whose cells are shared does work '
+                  'proportional to the UNFOLDED tree (the size of the result), which is not bounded by the DAG size - stated limitation.',
+             note=T_BASE + '; work is measured in loop-head ticks, not wall-clock; native run-aways are cut by a tick cap and reported as violations',
+             technique='ghost counters added by an in-memory AST rewrite of the real functions, postconditions ticks <= a*|input|+b discharged by symbolic execution + z3 for the per-call bounds; exact tick counts on enumerated/sampled DAG families and adversarial inputs (bounded)',
+             design_ref='DESIGN.md §5 C19'),
  'C20': dict(category='other',
              text='Thin deductive layer over ASSUMED primitives: the real AdnlChannel.__init__/encrypt/decrypt, '
                   'create_aes_ctr_sipher_from_key_n_data and get_key_aes_id run on symbolic 32-byte secrets/ids in all three orderings of '
